@@ -61,6 +61,7 @@ def solvers():
         o.update(kw)
         return o
     out["sesolve"] = lambda e, ss, sf, kw: qutip.sesolve(H, psi0, TL, e_ops=e, options=opts(ss, sf, **kw))
+    out["sesolve_operator"] = lambda e, ss, sf, kw: qutip.sesolve(H, qutip.Qobj(np.eye(2, dtype=complex)), TL, e_ops=e, options=opts(ss, sf, **kw))
     out["mesolve"] = lambda e, ss, sf, kw: qutip.mesolve(H, rho0, TL, c_ops=c, e_ops=e, options=opts(ss, sf, **kw))
     out["mesolve_ket"] = lambda e, ss, sf, kw: qutip.mesolve(H, psi0, TL, c_ops=c, e_ops=e, options=opts(ss, sf, **kw))
     out["brmesolve"] = lambda e, ss, sf, kw: qutip.brmesolve(H, rho0, TL, a_ops=[[qutip.sigmax(), lambda w: 0.1 * (w > 0)]],
@@ -134,9 +135,9 @@ def run_matrix(rep, tier):
     ref_cache = {}
     for name in names:
         methods = [{}]
-        if name in ("sesolve", "mesolve", "heom") and tier == "thorough":
+        if name in ("sesolve", "sesolve_operator", "mesolve", "heom") and tier == "thorough":
             methods = [{}, {"method": "vern7"}, {"method": "lsoda"}, {"method": "bdf"}, {"method": "dop853"}]
-        elif name in ("sesolve", "mesolve", "heom"):
+        elif name in ("sesolve", "sesolve_operator", "mesolve", "heom"):
             methods = [{}, {"method": "vern7"}, {"method": "lsoda"}]
         for form, (ss, sf), kw in itertools.product(forms, STORE, methods):
             extra = dict(kw)
@@ -317,6 +318,37 @@ def run_multitraj(rep, tier, problems):
                     if w is None or len(w) != ntraj or any(np.shape(x)[-1] != T for x in w):
                         P("noise-record", f"wiener_process shape {[np.shape(x) for x in (w or [])]} for {T} times")
     compare_keep(by_keep, problems)
+    # the final state of a run that stores only the final state is the last state of the same run with
+    # all states stored (same seeds), with and without improved sampling, with and without kept runs
+    for name in ("mcsolve", "nm_mcsolve"):
+        for improved, keep in itertools.product((False, True), (False, True)):
+            def go(ss, sf, eops):
+                o = {"store_states": ss, "store_final_state": sf, "keep_runs_results": keep, "progress_bar": "", "map": "serial", "improved_sampling": improved}
+                if name == "mcsolve":
+                    return qutip.mcsolve(H, psi0, TL, cops, e_ops=eops, ntraj=4, seeds=11, options=o)
+                return qutip.nm_mcsolve(H, psi0, TL, ops_and_rates=[(qutip.sigmam(), lambda t: 0.4 - 0.6 * np.sin(3 * t))], e_ops=eops, ntraj=4, seeds=11, options=o)
+            try:
+                with core.time_limit(240):
+                    full = go(True, True, [qutip.sigmaz()])
+                    only_final = go(False, True, [qutip.sigmaz()])
+                    nothing = go(None, True, [qutip.sigmaz()])
+            except core.CaseTimeout:
+                raise
+            except Exception as e:
+                problems.append((f"raises:{name}", f"{name} improved_sampling={improved} keep={keep}: {type(e).__name__}: {e}"[:300]))
+                continue
+            rep.evaluations += 1
+            rep.count("final-vs-last=" + name)
+            last = full.average_states[-1]
+            for tag, r in (("store_states=False", only_final), ("store_states=None", nothing)):
+                fs = r.average_final_state
+                if fs is None:
+                    problems.append((f"final-state:{name}", f"{name} improved_sampling={improved} keep_runs_results={keep} {tag}: average_final_state is None although requested"))
+                elif (fs - last).norm() > 1e-9:
+                    problems.append((f"final-state:{name}", f"{name} improved_sampling={improved} keep_runs_results={keep} {tag}: average_final_state differs from the last averaged state of the same run with states stored by {(fs - last).norm():.2e}"))
+                ex = qutip.expect(qutip.sigmaz(), fs) if fs is not None else None
+                if ex is not None and abs(ex - r.average_expect[0][-1]) > 1e-9:
+                    problems.append((f"final-state:{name}", f"{name} improved_sampling={improved} keep_runs_results={keep} {tag}: <sz> of the final state {ex} is not the last average expectation value {r.average_expect[0][-1]}"))
 
 
 def compare_keep(by_keep, problems):
